@@ -7,6 +7,10 @@
 //	fn 2  single-goroutine history (strict replay), same shape
 //	fn 3  fmt.Sprintf(format, uint64(id)) alone: input (format id) output text
 //
+// Formats: the short ones of the package's users plus a format-length family (lengthFamily: literal prefixes of
+// 0..70000 bytes + %d, every length 245..260, and shapes whose text is 255 bytes for a one-digit id), each with
+// >= 12 and >= 100 names held at once so that two- and three-digit ids occur.
+//
 // kind: 1 Acquire, 2 pool.Release(name), 3 name.Release(), 5 runtime.GC(), 9 panic.  handle = stamp of the
 // Acquire event (0 = nil name).  For a release, id/text are what the Name shows before the call (0/"" when
 // cleared), aux = 1 when the Name is cleared after the call.  The output lists the names still held at the
@@ -485,7 +489,7 @@ func lenFamily(thorough bool) []lenFmt {
 	}
 	ls = append(ls, 300, 1000, 70000)
 	if thorough {
-		ls = append(ls, 2, 100, 230, 240, 244, 261, 270, 511, 512, 4096, 65534, 65535, 65536)
+		ls = append(ls, 2, 100, 230, 240, 244, 261, 270, 511, 512, 4096, 65535, 65536)
 	}
 	for _, l := range ls {
 		add(fmt.Sprintf("lit%d+%%d", l), lit(l)+"%d", l+1, true)
@@ -593,8 +597,10 @@ func lengthFamily(out *sx.Out, rng *sx.Rng, thorough bool) {
 		if want120 {
 			sequentialC(out, "seqlen", lf.f, holdScript(120, true, true), "hold120-gc-hold12")
 		}
-		if thorough {
+		if thorough && lf.n >= 250 && lf.n <= 259 {
 			sequentialC(out, "seqlen", lf.f, holdScript(1100, false, false), "hold1100")
+		}
+		if thorough {
 			for k := 0; k < 3; k++ {
 				sequentialC(out, "seqlen", lf.f, randomScript(rng, rng.Range(40, 300)), "random")
 			}
@@ -603,7 +609,7 @@ func lengthFamily(out *sx.Out, rng *sx.Rng, thorough bool) {
 	// fn 1: concurrent, A: 16..32 names held at once (two-digit ids), B: 128+ (three-digit ids)
 	reps := 1
 	if thorough {
-		reps = 4
+		reps = 2
 		if raceEnabled {
 			reps = 1
 		}
@@ -625,7 +631,7 @@ func lengthFamily(out *sx.Out, rng *sx.Rng, thorough bool) {
 				a.rounds = rng.Range(2, 4)
 			}
 			concurrent(out, rng, a)
-			wantB := thorough || lf.n >= 250 && lf.n <= 259 && (lf.plain || i%2 == 0) || len(lf.f) == 2 || len(lf.f) == 202 || len(lf.f) == 302
+			wantB := thorough && len(lf.f) <= 1100 || lf.n >= 250 && lf.n <= 259 && (lf.plain || i%2 == 0) || len(lf.f) == 2 || len(lf.f) == 202 || len(lf.f) == 302
 			if wantB && !(quickRace && !lf.plain) {
 				concurrent(out, rng, b)
 			}
